@@ -340,6 +340,15 @@ func (e *Engine) RunTx(ops []Op, keyPrefix string) *TxResult {
 				return err
 			}
 		}
+		if e.txCount%7 == 3 {
+			// the stores declare their indexes again at the end of this transaction, with its writes not yet committed
+			// (a migration step that sets the stores up after loading data): that changes nothing
+			e.C.Count("transactions_ending_with_index_initialisation", 1)
+			if err := e.Sc.InitTx(ctx); err != nil {
+				e.C.Violationf(keyPrefix+" declaring the indexes again at the end of a transaction failed", e.describe(planned, len(planned)-1), "%v", err)
+				return err
+			}
+		}
 		return nil
 	})
 	res.Err = err
